@@ -57,6 +57,13 @@ CHECKS = {
          "finite pool), operator leaves are matched against their declared signature, annotations against Sub; the "
          "unconditional theorem is partial as for C03",
          "4 C04", "Coq-verified per-node checker + engine model correspondence through the real parser"),
+ "C15": ("de Bruijn lambda-terms with composite operators: primitive() modelled as unfold + applicative-order "
+         "normalisation; result has no composite operator and no redex, equals every normal form reachable by any "
+         "reduction order (confluence proved), equals an independent leftmost-outermost evaluator, is idempotent and "
+         "fuel-independent; subject reduction for a declarative typing with subsumption gives 'same or more specific "
+         "type' and 'validated languages expand without type error'; run against Expr.primitive of /repo with node-level "
+         "typing oracles (termination of the model is fuel-relative; typed half relies on the declarative discipline)",
+         "4 C15", "Coq proof (confluence, subject reduction) + specification-model correspondence + typing oracles"),
  "C16": ("histories of parses, failed parses, validate, printing, instantiation, graph/query construction on one "
          "Language, then a probe compared with a fresh identical language and with the engine model run in an empty "
          "store; on the model C16_history proves for EVERY prior store and every well-scoped program that the run is the "
